@@ -54,9 +54,13 @@ def make_input(kinds, r):
 
 
 def run_one(k, cfg):
-    kinds, strategy, jobs, explicit = cfg
+    kinds, strategy, jobs, explicit = cfg[:4]
+    cc = len(cfg) > 4 and cfg[4]
     r = random.Random(k)
     text = make_input(kinds, r)
+    if cc:
+        # slow golden run of the main command, quick cross-check command
+        text = text.replace('(check-sat)', '(assert slow1)\n(check-sat)')
     wd = common.subscratch(f'c10-{k}')
     os.makedirs(wd, exist_ok=True)
     flog = os.path.join(wd, 'fault.log')
@@ -67,6 +71,9 @@ def run_one(k, cfg):
         opts += ['--timeout', '0.3']
     if 'alloc' in kinds:
         opts += ['--memout', '64']
+    if cc:
+        spec += ';sleepif=slow1:1300'
+        opts += ['-c', f'{FAULTCMD} {flog}.cc keep=check-sat']
     # the launcher is used directly (the scripted command here is faultcmd)
     infile = os.path.join(wd, 'input.smt2')
     outfile = os.path.join(wd, 'output.smt2')
@@ -112,7 +119,7 @@ def run_one(k, cfg):
             continue
     res = {
         'cfg': {'kinds': list(kinds), 'strategy': strategy, 'jobs': jobs,
-                'explicit': explicit},
+                'explicit': explicit, 'cc': bool(cc)},
         'text': text, 'status': p.returncode, 'timed_out': timed_out,
         'wall': wall, 'stderr': err.decode('utf-8', 'replace')[-1500:],
         'left': left,
@@ -156,11 +163,17 @@ def main():
     if a.replay:
         with open(a.replay) as f:
             c = json.load(f)['replay']['cfg']
-        cfgs = [(tuple(c['kinds']), c['strategy'], c['jobs'], c['explicit'])]
+        cfgs = [(tuple(c['kinds']), c['strategy'], c['jobs'], c['explicit'],
+                 c.get('cc', False))]
     elif a.tier == 'quick':
         explicit = [c for c in cfgs if c[3]]
         derived = [c for c in cfgs if not c[3] and len(c[0]) == 1]
         cfgs = r.sample(explicit, 20) + r.sample(derived, 3)
+    if not a.replay:
+        # a cross-check command with its own derived limit
+        cfgs += [(('hang', ), 'hybrid', 2, False, True),
+                 (('spin', ), 'ddmin', 1, False, True)][
+                     :1 if a.tier == 'quick' else 2]
     from concurrent.futures import ThreadPoolExecutor
     with ThreadPoolExecutor(5) as ex:
         results = list(ex.map(lambda kv: run_one(*kv), enumerate(cfgs)))
@@ -240,6 +253,10 @@ def main():
             cases.append({'cid': len(cases), 'run': k, 'derived': True,
                           'golden_ms': int(gold['golden'][3] * 1000),
                           'limit_ms': int(gold['timeout'] * 1000)})
+            if gold.get('golden_cc') and gold.get('timeout_cc'):
+                cases.append({'cid': len(cases), 'run': k, 'derived': True,
+                              'golden_ms': int(gold['golden_cc'][3] * 1000),
+                              'limit_ms': int(gold['timeout_cc'] * 1000)})
     # TLC judges the recorded executions
     path = os.path.join(common.subscratch('c10'), 'cases.json')
     with open(path, 'w') as f:
